@@ -350,6 +350,8 @@ const STR_PUNCT: [&str; 16] = [".", ":", "!", "?", "@", "#", "*", "+", "-", "/",
 const STR_META: [&str; 11] = ["}", ";", "&&", "||", "(", ")", " then ", ",", "=", "+=", "=="];
 const NONASCII: [&str; 7] = ["é", "ß", "日本", "→", "😀", "Ω", "Việt"];
 const CALLS: [&str; 8] = ["apply_discount", "sendEmail", "notify", "set", "println", "Alert", "update", "AnalyzeSession"];
+/// look-alikes of the built-in action names, one per entry of CALLS
+const LOOKALIKE_CALLS: [&str; 8] = ["log_", "_retract", "Schedule_Rule_", "set_workflowdata", "Log2", "retractAll", "activateAgendaGroups", "complete_work_flow"];
 const METHODS: [&str; 4] = ["setSpeed", "setTotalDistance", "update", "add_item"];
 const CFUNCS: [&str; 5] = ["regex_match", "aiSentiment", "Length", "IsEmail", "score"];
 const CMT_WORDS: [&str; 10] = ["check", "customer", "tier", "TODO", "apply", "discount", "-", "10%", "==", "note:"];
@@ -2045,6 +2047,20 @@ pub struct Case {
 fn build_from(s: &mut Src, ctx: &mut Ctx, mut rules: Vec<RuleAst>) -> Case {
     if dev_only().is_some() {
         ctx.no_exclusions = true;
+    }
+    // Custom function names that LOOK LIKE built-in actions (an extra or moved underscore, a suffix, another case):
+    // they are custom calls all the same. Applied to files of 3, 5 or 7 rules - a pure function of the case, no draw, so
+    // byte-encoded cases keep their decoding.
+    if rules.len() >= 3 && rules.len() % 2 == 1 {
+        for r in rules.iter_mut() {
+            for a in r.actions.iter_mut() {
+                if let Action::Call { name, .. } = a {
+                    if let Some(k) = CALLS.iter().position(|c| c == name) {
+                        *name = LOOKALIKE_CALLS[k].to_string();
+                    }
+                }
+            }
+        }
     }
     let mut tags = Vec::new();
     let mut li = LayoutInfo::default();
